@@ -184,7 +184,14 @@ def build_written(case, root):
         fastparquet.write(path, df, **kw)
     finally:
         writer.MAX_PAGE_SIZE, writer.DATAPAGE_VERSION = old
-    if case.get("nomd"):
+    if case.get("nomd") == "partial":
+        # PARTIAL pandas metadata (as another tool rewriting the footer may leave it): the entries of the categorical columns and of
+        # the index are dropped from 'columns', the rest stays
+        pf_ = fastparquet.ParquetFile(path)
+        md_ = json.loads(pf_.key_value_metadata["pandas"])
+        md_["columns"] = [e for e in md_["columns"] if e.get("pandas_type") != "categorical" and e.get("name") not in md_.get("index_columns", [])]
+        writer.update_file_custom_metadata(path, {"pandas": json.dumps(md_)})
+    elif case.get("nomd"):
         writer.update_file_custom_metadata(path, {"pandas": None})
     if case.get("strip"):
         apply_strip(path, case["strip"])
@@ -422,6 +429,11 @@ def examine(case, path, pq=None, ctx=None):
     except Exception as e:        # noqa
         final_cats, cc_err = None, type(e).__name__
     tzs = dict(pf.tz or {})
+    try:
+        rep_categ = dict(pf.categories)          # the categorical columns the handle REPORTS (metadata only)
+    except Exception as e:        # noqa
+        rep_categ = None
+        fail("categories", "property-raises", "pf.categories raises %s: %s" % (type(e).__name__, str(e)[:100]))
     # ---------------- the read ----------------
     req_cols = ro["columns"]
     if ro.get("empty") and req_cols is not None:
@@ -532,6 +544,15 @@ def examine(case, path, pq=None, ctx=None):
         if pnames != list(pcats) or any(p in cols for p in pnames) or (from_paths is not None and not multi_cols and sorted(from_paths) != sorted(pnames)):
             fail("partitions", "names", "partition_names %r, cats %r, stored columns %r; columns of the frame that are not stored in the files: %r" % (
                 pnames, list(pcats), sorted(cols)[:8], from_paths))
+    # the categorical columns the handle reports (ParquetFile.categories: from the pandas metadata, from the old 'fastparquet.cats'
+    # key, from whatever hint is left when the pandas metadata is absent / removed / partial) = the categorical columns a default
+    # read delivers
+    if rep_categ is not None and cats_arg is None and "dtypes" not in kw and not multi_cols:
+        rep = sorted(c for c in rep_categ if c in df.columns)
+        act = sorted(str(c) for c in df.columns if isinstance(df[c].dtype, pd.CategoricalDtype) and c not in pcats)
+        if rep != act:
+            fail("categories", "reported-vs-read", "pf.categories reports %s as categorical (pandas metadata %s), the default read delivers %s as categorical" % (
+                rep, "present" if pf.has_pandas_metadata else "ABSENT", act))
     for c, vals in pcats.items():
         if not multi_cols and c in df.columns and isinstance(df[c].dtype, pd.CategoricalDtype):
             got = list(df[c].cat.categories)
@@ -552,6 +573,12 @@ def examine(case, path, pq=None, ctx=None):
         except Exception as e:        # noqa
             fail("counts", "per-row-group", "iter_row_groups raises %s: %s" % (type(e).__name__, str(e)[:120]))
     # ---------------- ties ----------------
+    if case.get("nomd") == "partial":
+        # (the `predict` model takes the metadata entry of the field and treats a missing entry under present pandas metadata as
+        #  an error, as older code did; the code now falls back on the schema: oracle only on partial metadata)
+        if ctx is not None:
+            ctx.count("skipped", "model ties on PARTIAL pandas metadata")
+        return "ok", fails
     if pq is None or ro.get("empty"):
         # (a selection inherits the dtypes its parent derived from ALL its row groups - C17_handle_derived_inherits - the
         #  `predict` model is evaluated on the handle's own row groups: no model ties on derived handles)
@@ -864,6 +891,20 @@ def run(ctx):
         sources.append(gen_written(rng))
     for _ in range(12 if ctx.quick() else 150):
         sources.append(gen_spliced(rng))
+    # fastparquet-written files whose 'pandas' entry is REMOVED or PARTIAL while the other fastparquet-specific hints remain
+    # (num_categories with every chunk of a categorical column, statistics): categorical, tz-aware, nullable and index columns
+    for k in range(10 if ctx.quick() else 80):
+        c = gen_written(rng)
+        n = rng.choice([7, 9, 64, 65])
+        c["spec"] = F.gen_spec(rng, n=n, ncols=rng.choice([3, 4, 5]), kinds=["cat_str", "cat_int", "cat_str", "dttz_us", "Int64", "boolean", "int32", "str", "dt_ns"])
+        if rng.random() < 0.5:
+            c["spec"]["index"] = {"name": "idx", "kind": rng.choice(["cat_str", "dttz_us", "int8", "Int32"]), "nulls": "none", "seed": rng.randrange(1 << 30), "ncat": 3,
+                                  "tz": "Europe/Berlin"}
+        o = RT.gen_opts(rng, c["spec"])
+        o.update(file_scheme="simple", partition_on=None, has_nulls=True)
+        c.update(wopts=o, extra=[], strip=None, view=None)
+        c["nomd"] = True if k % 2 == 0 else "partial"
+        sources.append(c)
     # the real code runs in forked workers (a native crash or a hang is a reported failure of that case, not a dead check);
     # each worker has its own pqref and scratch directory and records what it would tell the Ctx; the parent replays the
     # records in job order.  One job = one dataset with all its option tuples (or one corpus case).
